@@ -29,6 +29,10 @@ def check(run, prog, tier):
         "conversion functions are mutually inverse (including the reciprocal nm branch), accessor "
         "factories and converter inheritance by MRO. Not decided: values of the physical factors.")
     run.trusted_base = ["'with' guarantees __exit__", "dict lookup semantics of the conversion tables"]
+    run.rule("C05-U12", "units-managed objects hand out freshly converted values: no converted value is kept on the object and returned under a later units context", minimum=3)
+    from . import memorule
+    memorule.check(run, prog, "C05-U12", ['quantarhei.qm.hilbertspace.hamiltonian.Hamiltonian', 'quantarhei.core.frequency.FrequencyAxis', 'quantarhei.builders.modes.Mode', 'quantarhei.core.managers.Manager'],
+                   "the value read under another context is then not the conversion of the stored one")
     run.rule("C05-U1", "only the context managers, Manager and the public set_current_units switch units", minimum=4)
     run.rule("C05-U2", "units context protocol: backup, switch, restore, counters", minimum=12)
     run.rule("C05-U3", "units contexts are only constructed for 'with'", minimum=30)
@@ -50,8 +54,9 @@ def check(run, prog, tier):
     from ..report import RuleProxy
     c09.rule_E(RuleProxy(run, "C05-U8"), prog)
     run.rule("C05-U9", "every class of quantarhei.qm that keeps a Hamiltonian to compute with (rate matrices, relaxation "
-                       "tensors, propagators, hierarchy) and the evolutions that convert from the rotating frame read "
-                       "units-converting accessors under internal units", minimum=40)
+                       "tensors, propagators, hierarchy), the evolutions that convert from the rotating frame and the "
+                       "absorption and mock two-dimensional calculators read units-converting accessors under internal "
+                       "units", minimum=60)
     rule_U9(run, prog)
     run.rule("C05-U10", "method accessor pairs: a set_X that converts its value to internal units has a get_X that "
                         "converts it back to the current units (and package code that consumes such a getter for a "
@@ -205,10 +210,13 @@ def rule_U9(run, prog):
         if unitflow.hamiltonian_fields(prog, c)[1]:
             classes.append(c.qualname)
     classes += ["quantarhei.qm.propagators.dmevolution.DensityMatrixEvolution",
-                "quantarhei.qm.propagators.statevectorevolution.StateVectorEvolution"]
+                "quantarhei.qm.propagators.statevectorevolution.StateVectorEvolution",
+                # calculators that lay internal-unit line positions on a units-managed frequency axis
+                "quantarhei.spectroscopy.mocktwodcalculator.MockTwoDResponseCalculator",
+                "quantarhei.spectroscopy.abscalculator.AbsSpectrumCalculator"]
     if len(classes) < 20:
         raise AnalysisError("C05-U9: only %d classes keeping a Hamiltonian found (23 confirmed)" % len(classes))
-    intunits.check_classes(run, prog, "C05-U9", classes, 40,
+    intunits.check_classes(run, prog, "C05-U9", classes, 60,
                            "what the calculator combines it with (times in fs, kT) is internal: the result stored by the "
                            "calculator depends on the units context it was called from")
 
